@@ -49,7 +49,7 @@ Theorem C37_migrate_faithful_partial :
                        else (body_size (o_body o) + part_size - 1) / part_size) /\
             (eff_cls (o_cls o) = 1 -> exp_norm (m_exp (o_meta o)) = m_exp (o_meta o) -> same_named_fields o o').
 Proof.
-  intros src dst [Hnd Hk] He. destruct (migrate_faithful src dst Hnd Hk He) as [Hok Hall].
+  intros src dst [Hnd Hk] He. destruct (migrate_faithful mig_obj src dst Hnd Hk He) as [Hok Hall].
   split; auto. intros n sb Hg. destruct (Hall n sb Hg) as [db [Hd Hc]]. exists db. split; auto.
   intros k o Ho. exists (mig_obj o). split; [now apply Hc|].
   assert (Hlast : eff_cls (o_cls o) = 1 -> exp_norm (m_exp (o_meta o)) = m_exp (o_meta o) -> same_named_fields o (mig_obj o)).
@@ -111,13 +111,98 @@ Theorem C37_migrate_faithful_refuted_expires : ~ C37_migrate_faithful_full.
 Proof. apply (refute_with rfc850_obj). right. vm_compute. discriminate. Qed.
 Print Assumptions C37_migrate_faithful_refuted_expires.
 
+(* ---- every kind of source and destination storage ----
+   MigrateStorage is also used with an S3ClientStorage (a remote S3 endpoint / another pithos) as source or
+   destination.  migrate_k sk dk models it for the four combinations; the state of a client-side storage is the
+   state of the storage behind its server.  For EVERY source kind the body, the tags, Cache-Control,
+   Content-Disposition/-Encoding/-Language, redirect location and user metadata arrive (local destination);
+   the source kind makes no difference at all.  Two client defects show through a client DESTINATION for
+   single-part objects: the tag set is not stored, and an absent content type is stored as
+   application/octet-stream. *)
+Theorem C37_migrate_every_kind_partial :
+  forall sk dk src dst, src_wf src -> dst_buckets_empty dst ->
+    snd (migrate_k sk dk src dst) = MOk /\
+    forall n sb, aget n src = Some sb ->
+      exists db, aget n (fst (migrate_k sk dk src dst)) = Some db /\
+        forall k o, cur sb k = Some o ->
+          exists o', cur db k = Some o' /\
+            o_body o' = o_body o /\
+            m_cc (o_meta o') = m_cc (o_meta o) /\ m_cd (o_meta o') = m_cd (o_meta o) /\
+            m_ce (o_meta o') = m_ce (o_meta o) /\ m_cl (o_meta o') = m_cl (o_meta o) /\
+            m_wrl (o_meta o') = m_wrl (o_meta o) /\ m_um (o_meta o') = m_um (o_meta o) /\
+            m_exp (o_meta o') = exp_norm (m_exp (o_meta o)) /\
+            o_cls o' = 0 /\
+            o_ct o' = (match dk with
+                       | KClient => if body_size (o_body o) <=? part_size
+                                    then (if o_ct o =? 0 then ct_octet else o_ct o) else o_ct o
+                       | KLocal => o_ct o
+                       end) /\
+            o_tags o' = (match dk with
+                         | KClient => if body_size (o_body o) <=? part_size then [] else o_tags o
+                         | KLocal => o_tags o
+                         end).
+Proof.
+  intros sk dk src dst [Hnd Hk] He. unfold migrate_k.
+  destruct (migrate_faithful (mig_obj_k sk dk) src dst Hnd Hk He) as [Hok Hall].
+  split; auto. intros n sb Hg. destruct (Hall n sb Hg) as [db [Hd Hc]]. exists db. split; auto.
+  intros k o Ho. exists (mig_obj_k sk dk o). split; [now apply Hc|]. apply mig_obj_k_fields.
+Qed.
+Print Assumptions C37_migrate_every_kind_partial.
+
+(* in particular: whatever the source kind, body, content type, tags and user metadata arrive in a local destination *)
+Theorem C37_object_arrives_from_every_source_kind :
+  forall sk src dst, src_wf src -> dst_buckets_empty dst ->
+    forall n sb, aget n src = Some sb ->
+      exists db, aget n (fst (migrate_k sk KLocal src dst)) = Some db /\
+        forall k o, cur sb k = Some o ->
+          exists o', cur db k = Some o' /\ o_tags o' = o_tags o /\ o_body o' = o_body o /\ o_ct o' = o_ct o /\
+                     m_um (o_meta o') = m_um (o_meta o).
+Proof.
+  intros sk src dst Hw He n sb Hg.
+  destruct (C37_migrate_every_kind_partial sk KLocal src dst Hw He) as [_ Hall].
+  destruct (Hall n sb Hg) as [db [Hd Hc]]. exists db. split; auto.
+  intros k o Ho. destruct (Hc k o Ho) as [o' [Hc' [Hb [_ [_ [_ [_ [_ [Hum [_ [_ [Hct Ht]]]]]]]]]]]].
+  exists o'. repeat split; auto.
+Qed.
+Print Assumptions C37_object_arrives_from_every_source_kind.
+
+(* the two deviations, as refuted full statements *)
+Definition C37_client_destination_keeps_content_type_full : Prop :=
+  forall src dst, src_wf src -> dst_buckets_empty dst ->
+    forall n sb, aget n src = Some sb ->
+      exists db, aget n (fst (migrate_k KLocal KClient src dst)) = Some db /\
+        forall k o, cur sb k = Some o -> exists o', cur db k = Some o' /\ o_ct o' = o_ct o.
+Definition C37_client_destination_keeps_tags_full : Prop :=
+  forall src dst, src_wf src -> dst_buckets_empty dst ->
+    forall n sb, aget n src = Some sb ->
+      exists db, aget n (fst (migrate_k KLocal KClient src dst)) = Some db /\
+        forall k o, cur sb k = Some o -> exists o', cur db k = Some o' /\ o_tags o' = o_tags o.
+Definition no_ct_obj : obj := mkObj [(1, 3)] 0 0 (mkMeta 0 0 0 0 0 0 []) [] 0.
+Definition tagged_obj : obj := mkObj [(1, 3)] 0 1 (mkMeta 0 0 0 0 0 0 []) [(0, 1)] 0.
+Lemma one_src_wf o : src_wf (one_src o).
+Proof. split; [repeat constructor; intros []|]. intros n sb [Hin|[]]. inversion Hin. subst. repeat constructor. intros []. Qed.
+Theorem C37_client_destination_keeps_content_type_refuted : ~ C37_client_destination_keeps_content_type_full.
+Proof.
+  intros H. destruct (H (one_src no_ct_obj) [] (one_src_wf _) ltac:(intros n db Hg; discriminate) 0 _ eq_refl) as [db [Hd Hc]].
+  vm_compute in Hd. inversion Hd. subst db. destruct (Hc 0 no_ct_obj eq_refl) as [o' [Ho' Hct]].
+  vm_compute in Ho'. inversion Ho'. subst o'. discriminate.
+Qed.
+Print Assumptions C37_client_destination_keeps_content_type_refuted.
+Theorem C37_client_destination_keeps_tags_refuted : ~ C37_client_destination_keeps_tags_full.
+Proof.
+  intros H. destruct (H (one_src tagged_obj) [] (one_src_wf _) ltac:(intros n db Hg; discriminate) 0 _ eq_refl) as [db [Hd Hc]].
+  vm_compute in Hd. inversion Hd. subst db. destruct (Hc 0 tagged_obj eq_refl) as [o' [Ho' Ht]].
+  vm_compute in Ho'. inversion Ho'. subst o'. discriminate.
+Qed.
+Print Assumptions C37_client_destination_keeps_tags_refuted.
+
 (* ---- second half ---- *)
 (* a common bucket that lists a current object in the destination makes the migration fail *)
 Theorem C37_nonempty_dst_fails :
   forall src dst n sb db, NoDup (map fst src) ->
     aget n src = Some sb -> aget n dst = Some db -> cur_objs db <> [] ->
     snd (migrate src dst) = MNotEmpty.
-Proof. exact migrate_nonempty. Qed.
+Proof. exact (migrate_nonempty mig_obj). Qed.
 Print Assumptions C37_nonempty_dst_fails.
 
 (* nothing is ever overwritten, whether the migration succeeds or fails: every destination bucket
@@ -130,8 +215,25 @@ Theorem C37_nothing_overwritten :
     forall n db, aget n dst = Some db ->
       exists db', aget n (fst (migrate src dst)) = Some db' /\ b_ver db' = b_ver db /\
         forall k, exists pre, stack db' k = pre ++ stack db k.
-Proof. intros src dst [Hnd Hk] Hwf. apply migrate_suffix; auto. Qed.
+Proof. intros src dst [Hnd Hk] Hwf. apply (migrate_suffix mig_obj); auto. Qed.
 Print Assumptions C37_nothing_overwritten.
+
+(* both hold for every source / destination kind *)
+Theorem C37_nonempty_dst_fails_every_kind :
+  forall sk dk src dst n sb db, NoDup (map fst src) ->
+    aget n src = Some sb -> aget n dst = Some db -> cur_objs db <> [] ->
+    snd (migrate_k sk dk src dst) = MNotEmpty.
+Proof. intros sk dk. exact (migrate_nonempty (mig_obj_k sk dk)). Qed.
+Print Assumptions C37_nonempty_dst_fails_every_kind.
+Theorem C37_nothing_overwritten_every_kind :
+  forall sk dk src dst, src_wf src ->
+    (forall n db, aget n dst = Some db -> b_ver db = false ->
+       Forall (fun p => snd p = [] \/ exists o s', snd p = VObj o :: s') (b_keys db)) ->
+    forall n db, aget n dst = Some db ->
+      exists db', aget n (fst (migrate_k sk dk src dst)) = Some db' /\ b_ver db' = b_ver db /\
+        forall k, exists pre, stack db' k = pre ++ stack db k.
+Proof. intros sk dk src dst [Hnd Hk] Hwf. apply (migrate_suffix (mig_obj_k sk dk)); auto. Qed.
+Print Assumptions C37_nothing_overwritten_every_kind.
 
 (* stronger reading ("fails and leaves the destination unchanged"): REFUTED — buckets are created
    and earlier buckets are filled before the non-empty bucket is reached *)
